@@ -303,7 +303,14 @@ def dataset_like(sample_dataset: xarray.Dataset, new_dataset: xarray.Dataset) ->
     _update_no_clobber(sample_dataset.encoding, like_dataset.encoding)
     for key, sample_variable in sample_dataset.variables.items():
         new_variable = like_dataset.variables[key]
-        _update_no_clobber(sample_variable.attrs, new_variable.attrs)
+        # Attributes such as `_FillValue` and `missing_value` are moved to the
+        # encoding when xarray decodes a variable.
+        # Copying them back as attributes would make the variable unsaveable.
+        sample_attrs = {
+            name: value for name, value in sample_variable.attrs.items()
+            if name not in new_variable.encoding
+        }
+        _update_no_clobber(sample_attrs, new_variable.attrs)
         _update_no_clobber(sample_variable.encoding, new_variable.encoding)
 
     # Done!
